@@ -1000,6 +1000,60 @@ pub fn gen_core(u: &mut Src, doc: &Y) -> CoreProg {
     let mut g = G { u, nodes: 0, tags: vec![], root: doc };
     let s: Samples = vec![g.root];
     let (text, _) = g.expr(&s, depth);
-    CoreProg { text, nodes: g.nodes, tags: g.tags }
+    CoreProg { text: guard_text_reading_builtins(&text), nodes: g.nodes, tags: g.tags }
+}
+
+/// In yq semantics a few builtins operate on the *source text* of a boolean, null or number
+/// (`length` of a number is the length of its spelling, `reverse` reverses the spelling,
+/// `tonumber` quotes it in its error message), so on such operands they inspect presentation
+/// (`+28` / `28`, `True` / `true`, `~` / `null` are the same value). The presentation-agnostic
+/// fragment applies them to the other types only: every occurrence of the identifier outside
+/// string literals is wrapped in a type test.
+pub fn guard_text_reading_builtins(program: &str) -> String {
+    const GUARDS: &[(&str, &str)] = &[
+        ("length", "(if type == \"number\" then 0 else length end)"),
+        ("reverse", "(if (type == \"string\" or type == \"array\") then reverse else . end)"),
+        ("tonumber", "(if (type == \"string\" or type == \"number\") then tonumber else . end)"),
+    ];
+    let b = program.as_bytes();
+    let ident = |c: u8| c.is_ascii_alphanumeric() || c == b'_';
+    let mut out = String::with_capacity(program.len() + 32);
+    let mut i = 0;
+    let mut in_str = false;
+    'outer: while i < b.len() {
+        if in_str {
+            if b[i] == b'\\' && i + 1 < b.len() {
+                out.push_str(&program[i..i + 2]);
+                i += 2;
+                continue;
+            }
+            if b[i] == b'"' {
+                in_str = false;
+            }
+        } else if b[i] == b'"' {
+            in_str = true;
+        } else if ident(b[i]) && (i == 0 || !(ident(b[i - 1]) || b[i - 1] == b'.' || b[i - 1] == b'$' || b[i - 1] == b'@')) {
+            for (name, guarded) in GUARDS {
+                if program[i..].starts_with(name) && !b.get(i + name.len()).map_or(false, |&c| ident(c) || c == b'(') {
+                    out.push_str(guarded);
+                    i += name.len();
+                    continue 'outer;
+                }
+            }
+            // copy the whole identifier so that its tail is not matched again
+            let mut k = i;
+            while k < b.len() && ident(b[k]) {
+                k += 1;
+            }
+            out.push_str(&program[i..k]);
+            i = k;
+            continue;
+        }
+        // copy one character (programs may contain non-ASCII text inside strings)
+        let ch_len = program[i..].chars().next().map_or(1, |c| c.len_utf8());
+        out.push_str(&program[i..i + ch_len]);
+        i += ch_len;
+    }
+    out
 }
 
